@@ -750,14 +750,10 @@ impl Relations {
             to_insert.push(entry.0.green().into());
             (child_count, to_insert)
         };
-        // We can safely replace the root here since Relations is a root node
-        self.0 = SyntaxNode::new_root_mut(
-            self.0.replace_with(
-                self.0
-                    .green()
-                    .splice_children(position..position, new_children),
-            ),
-        );
+        // Splice the new items into the existing tree, so that handles to the
+        // entries taken earlier keep belonging to this field
+        self.0
+            .splice_children(position..position, detached_elements(new_children));
     }
 
     /// Replace the entry at the given index
@@ -1122,6 +1118,14 @@ impl Entry {
             )
         };
 
+        if self.0.is_mutable() {
+            // splice into the existing node, so that handles to the other
+            // alternatives taken earlier keep belonging to this entry
+            self.0
+                .splice_children(position..position, detached_elements(new_children));
+            return;
+        }
+
         // the new entry node (replace_with would give the whole new root,
         // which must not be spliced into the parent)
         let new_entry = SyntaxNode::new_root_mut(
@@ -1144,6 +1148,27 @@ impl Entry {
             self.0 = new_entry;
         }
     }
+}
+
+/// Turn green elements into detached syntax elements that can be spliced
+/// into a mutable tree.
+fn detached_elements(children: Vec<NodeOrToken<GreenNode, GreenToken>>) -> Vec<SyntaxElement> {
+    children
+        .into_iter()
+        .map(|c| match c {
+            NodeOrToken::Node(n) => SyntaxNode::new_root_mut(n).into(),
+            NodeOrToken::Token(t) => {
+                let mut builder = GreenNodeBuilder::new();
+                builder.start_node(ROOT.into());
+                builder.token(t.kind(), t.text());
+                builder.finish_node();
+                SyntaxNode::new_root_mut(builder.finish())
+                    .first_token()
+                    .unwrap()
+                    .into()
+            }
+        })
+        .collect()
 }
 
 fn inject(builder: &mut GreenNodeBuilder, node: SyntaxNode) {
